@@ -335,7 +335,7 @@ fb_unit("op_assign_copy", "U_OP_ASSIGN_COPY", "fb_op_assign_copy", "op_assign_co
         Lift(FCPP, r"void function_base::op_assign\(function_base const& other, vtable const\*", rules=fb_rules()),
         "function_base::op_assign(function_base const&, vtable const*), destroy")
 fb_unit("op_assign_move", "U_OP_ASSIGN_MOVE", "fb_op_assign_move", "op_assign_move",
-        Lift(FCPP, r"void function_base::op_assign\(function_base&& other, vtable const\* empty_vtable\)", rules=fb_rules()),
+        Lift(FCPP, r"void function_base::op_assign\(function_base&& other, vtable const\*[^)]*\)", rules=fb_rules()),
         "function_base::op_assign(function_base&&, vtable const*), swap, reset, destroy")
 fb_unit("bf_assign", "U_BF_ASSIGN", "bf_assign", "bf_assign",
         Lift(FHPP, r"void assign\(F&& f\)", rules=BF_ASSIGN_RULES + fb_rules() + [
